@@ -11,8 +11,29 @@ import re
 from harness import vlib
 
 FMT_ID = {"dict": 0, "msgpack": 1, "json": 2, "jsonb": 3, "toml": 4}
-SPEC_ID = {None: 0, "int": 1, "str": 2}
-MD5_ID = {hashlib.md5(k.encode()).hexdigest(): v for k, v in SPEC_ID.items() if k}
+# specialisation ids: one per ORDERED tuple of type arguments (distinct rendered names => distinct id); the md5
+# table is computed here from the rendered names, independently of /repo's hash_type_args
+import itertools
+from harness.c14fam import TARGS
+_KEYS = sorted(TARGS)
+SPEC_ID = {None: 0}
+for _n in (1, 2):
+    for _t in itertools.product(_KEYS, repeat=_n):
+        SPEC_ID[_t] = len(SPEC_ID)
+MD5_ID = {hashlib.md5(",".join(TARGS[a][1] for a in k).encode()).hexdigest(): v for k, v in SPEC_ID.items() if k}
+_UNKNOWN_MD5 = {}
+
+
+def spec_id(targ):
+    return SPEC_ID[tuple(targ) if targ else None]
+
+
+def md5_id(h):
+    """id of the specialisation a generated method name belongs to; a hash that is not the md5 of the ordered,
+    fully qualified argument names gets an id no model slot has (=> correspondence mismatch)"""
+    if h in MD5_ID:
+        return MD5_ID[h]
+    return _UNKNOWN_MD5.setdefault(h, 900 + len(_UNKNOWN_MD5))
 DIALECT_ID = {None: None, "D1": 1, "D2": 2}
 # formats compiled at class creation per mixin: (unpack format, pack format)
 MIXIN_FMTS = {"msgpack": ("msgpack", "msgpack"), "orjson": ("json", "jsonb"), "toml": ("toml", "toml")}
@@ -33,7 +54,7 @@ def parse_method(name: str):
         raise ValueError("unknown generated method name " + name)
     pack = m.group(1) == "to"
     body = m.group(2)
-    spec = MD5_ID[m.group(3)] if m.group(3) else 0
+    spec = md5_id(m.group(3)) if m.group(3) else 0
     if body == "dict":
         return mn(pack, 0, False, spec)
     if body.startswith("dict_"):
@@ -64,7 +85,7 @@ def fam_term(fam, lazy):
                 if m in MIXIN_FMTS:
                     u, p = MIXIN_FMTS[m]
                     fmts.append(f"({FMT_ID[u]}, {FMT_ID[p]})")
-        fields = [f"(FD {t[1]} {SPEC_ID[t[3]]})" for _, t in F.all_fields(fam, i) if t[0] == "dc"]
+        fields = [f"(FD {t[1]} {spec_id(t[3])})" for _, t in F.all_fields(fam, i) if t[0] == "dc"]
         out.append(f"(CD {b(lazy[i] and c['kind'] == 'mixin')} {b(c['dsup'])} [{'; '.join(fmts)}] [{'; '.join(fields)}])")
     return "[" + "; ".join(out) + "]"
 
@@ -130,14 +151,59 @@ THEOREMS = ["C14_reachable_wf", "C14_call_state_independent", "C14_history_parti
 
 
 def theorems(ctx):
-    if THEOREMS:
-        ctx.theorems("props/C14_lazy.vo", THEOREMS)
+    ctx.theorems("props/C14_lazy.vo", THEOREMS)
+    # specialisation key: proofs over kernel K11 (method names) as translated on this run; the plugin fails
+    # closed unless hash_type_args is md5(",".join(map(type_name, type_args))).hexdigest()
+    ctx.theorems("props/C14_speckey.vo", ["C14_spec_key_inj", "C14_join_inj"], kernels=["K11"])
+    spec_key_tie(ctx)
+
+
+def spec_key_tie(ctx):
+    """the key the model assumes (md5 of the ORDERED, fully qualified rendered names joined by ',') against the
+    real hash_type_args / type_name, for every argument tuple the generator can produce; Coq's `join` against
+    Python's ','.join on the same lists"""
+    from harness import c14fam as F
+    from mashumaro.core.meta.helpers import hash_type_args, type_name
+    F.ensure_aux()
+    ns = {}
+    exec("import typing, c14aux_a, c14aux_b\nfrom typing import List", ns)
+    bad, cases = [], []
+    for k in SPEC_ID:
+        if not k:
+            continue
+        objs = [eval(TARGS[a][0], ns) for a in k]
+        names = [TARGS[a][1] for a in k]
+        got_names = [type_name(o) for o in objs]
+        exp = hashlib.md5(",".join(names).encode()).hexdigest()
+        if got_names != names or hash_type_args(objs) != exp:
+            bad.append((k, got_names, hash_type_args(objs), exp))
+        cases.append("([" + "; ".join(vlib.coq_str(n) for n in names) + "], " + vlib.coq_str(",".join(names)) + ")")
+    ctx.correspondence("spec-key-vs-hash_type_args", len(SPEC_ID) - 1, len(bad), str(bad[:3]))
+    if bad:
+        ctx.not_shown("correspondence spec-key-vs-hash_type_args",
+                      f"hash_type_args / type_name disagree with md5(','.join(full names)) on {bad[:3]}")
+    if ctx.kernel_report.get("K11", {}).get("ok"):
+        b2, log = vlib.coq_bad_idx("c14_join", "PyK_names K11Proofs SpecKey", "From VerifGen Require Import K11.", "", cases,
+                                   "fun c => String.eqb (join (fst c)) (snd c) && forallb comma_free (fst c)", "list string * string",
+                                   needs=["theories/SpecKey.vo"])
+        if b2 is None or b2:
+            ctx.correspondence("coq-join-vs-python-join", len(cases), -1 if b2 is None else len(b2), log[-300:])
+            ctx.not_shown("correspondence coq-join-vs-python-join", log[-500:])
+        else:
+            ctx.correspondence("coq-join-vs-python-join", len(cases), 0, "")
 
 
 def correspondence(ctx, cases, limit=None):
     terms, srcs, nsteps = [], [], 0
+    from harness.props.c14 import has_dsup_gap
+    skipped = 0
     for case in cases:
         if "snaps" not in case or not case["snaps"]:
+            continue
+        if has_dsup_gap(case["fam"]):
+            # the model has no MRO: a subclass without ADD_DIALECT_SUPPORT of a class with it shares the parent's
+            # cache dicts in the real classes (known finding C14/dialect-cache-inherited-by-subclass)
+            skipped += 1
             continue
         try:
             t, n = case_term(case)
@@ -155,7 +221,7 @@ def correspondence(ctx, cases, limit=None):
     if bad is None:
         ctx.correspondence(name, len(terms), -1, log)
         ctx.not_shown("correspondence " + name, log)
-        return
+        return False
     detail = ""
     if bad:
         c = srcs[bad[0]]
@@ -166,5 +232,6 @@ def correspondence(ctx, cases, limit=None):
         ctx.not_shown("correspondence " + name, detail)
     ctx.correspondence(name, len(terms), len(bad), detail or f"{nsteps} compared states")
     ctx.hist("correspondence", "histories", len(terms))
+    ctx.hist("correspondence", "skipped: subclass without dialect support of a class with it", skipped)
     ctx.hist("correspondence", "states", nsteps)
-    return bad, srcs
+    return not bad
